@@ -271,3 +271,100 @@ Proof.
   rewrite E. lra.
 Qed.
 End Svt.
+
+(* ---------- procrustes is idempotent: a matrix M that already has orthonormal columns (rows) has all singular values 1 in ANY
+   decomposition satisfying the contract, so U V = U diag(s) V = M *)
+Lemma delta_sym a b : delta a b = delta b a.
+Proof. unfold delta. destruct (Nat.eq_dec a b), (Nat.eq_dec b a); congruence. Qed.
+Section ProcrustesFixed.
+Variables (m n k : nat) (U : nat -> nat -> R) (s : nat -> R) (V : nat -> nat -> R).
+Hypothesis HU : ocols m k U.
+Hypothesis HV : ocols n k (fun j l => V l j).
+Hypothesis Hs : forall l, (l < k)%nat -> 0 <= s l.
+Let M := compose k U s V.
+
+Lemma M_times_row l i : (l < k)%nat -> rsum n (fun j => M i j * V l j) = U i l * s l.
+Proof.
+  intros Hl. unfold M, compose.
+  rewrite (rsum_ext n _ (fun j => rsum k (fun l2 => (U i l2 * s l2) * (V l2 j * V l j))))
+    by (intros j _; rewrite Rmult_comm, <- rsum_scale; apply rsum_ext; intros; ring).
+  rewrite rsum_exchange.
+  rewrite (rsum_ext k _ (fun l2 => (U i l2 * s l2) * delta l l2)).
+  - apply (rsum_delta k (fun l2 => U i l2 * s l2) l Hl).
+  - intros l2 Hl2. rewrite rsum_scale. rewrite (HV l2 l Hl2 Hl), delta_sym. reflexivity.
+Qed.
+Lemma col_times_M l j : (l < k)%nat -> rsum m (fun i => U i l * M i j) = s l * V l j.
+Proof.
+  intros Hl. unfold M, compose.
+  rewrite (rsum_ext m _ (fun i => rsum k (fun l2 => (s l2 * V l2 j) * (U i l * U i l2))))
+    by (intros i _; rewrite <- rsum_scale; apply rsum_ext; intros; ring).
+  rewrite rsum_exchange.
+  rewrite (rsum_ext k _ (fun l2 => (s l2 * V l2 j) * delta l l2)).
+  - apply (rsum_delta k (fun l2 => s l2 * V l2 j) l Hl).
+  - intros l2 Hl2. rewrite rsum_scale. rewrite (HU l l2 Hl Hl2). reflexivity.
+Qed.
+Lemma sq_one x : 0 <= x -> x * x = 1 -> x = 1.
+Proof. intros H0 H1. nra. Qed.
+Lemma singular_values_one_cols : ocols m n M -> forall l, (l < k)%nat -> s l = 1.
+Proof.
+  intros HM l Hl. apply sq_one; [apply Hs, Hl|].
+  pose proof (quad_expand m n M (fun j => V l j) (fun j => V l j) HM) as Q. cbv beta in Q.
+  rewrite (rsum_ext m _ (fun i => (s l * s l) * (U i l * U i l))) in Q.
+  - rewrite rsum_scale, (HU l l Hl Hl) in Q. rewrite (HV l l Hl Hl) in Q. unfold delta in Q.
+    destruct (Nat.eq_dec l l); [lra | congruence].
+  - intros i _. rewrite (rsum_ext n _ (fun j => M i j * V l j)) by (intros; ring). rewrite (M_times_row l i Hl). ring.
+Qed.
+Lemma singular_values_one_rows : ocols n m (fun j i => M i j) -> forall l, (l < k)%nat -> s l = 1.
+Proof.
+  intros HM l Hl. apply sq_one; [apply Hs, Hl|].
+  pose proof (quad_expand n m (fun j i => M i j) (fun i => U i l) (fun i => U i l) HM) as Q. cbv beta in Q.
+  rewrite (rsum_ext n _ (fun j => (s l * s l) * (V l j * V l j))) in Q.
+  - rewrite rsum_scale, (HV l l Hl Hl) in Q. rewrite (HU l l Hl Hl) in Q. unfold delta in Q.
+    destruct (Nat.eq_dec l l); [lra | congruence].
+  - intros j _. rewrite (col_times_M l j Hl). ring.
+Qed.
+Theorem procrustes_fixed : ocols m n M \/ ocols n m (fun j i => M i j) -> forall i j, compose k U (fun _ => 1) V i j = M i j.
+Proof.
+  intros HM i j. unfold M, compose. apply rsum_ext; intros l Hl.
+  destruct HM as [HM|HM]; [rewrite (singular_values_one_cols HM l Hl) | rewrite (singular_values_one_rows HM l Hl)]; reflexivity.
+Qed.
+End ProcrustesFixed.
+
+(* ---------- singular value thresholding is firmly non-expansive (full: both outputs come with their decompositions) *)
+Section SvtFirm.
+Variables (m n : nat) (t : R).
+Hypothesis Ht : 0 <= t.
+Variables (k1 : nat) (U1 : nat -> nat -> R) (s1 : nat -> R) (V1 : nat -> nat -> R) (sf1 g1 : nat -> R).
+Variables (k2 : nat) (U2 : nat -> nat -> R) (s2 : nat -> R) (V2 : nat -> nat -> R) (sf2 g2 : nat -> R).
+Hypothesis HU1 : ocols m k1 U1.
+Hypothesis HV1 : ocols n k1 (fun j l => V1 l j).
+Hypothesis HU2 : ocols m k2 U2.
+Hypothesis HV2 : ocols n k2 (fun j l => V2 l j).
+Hypothesis Hsplit1 : forall l, (l < k1)%nat -> s1 l = sf1 l + g1 l.
+Hypothesis Hsplit2 : forall l, (l < k2)%nat -> s2 l = sf2 l + g2 l.
+Hypothesis Hg1 : forall l, (l < k1)%nat -> 0 <= g1 l <= t.
+Hypothesis Hg2 : forall l, (l < k2)%nat -> 0 <= g2 l <= t.
+Hypothesis Hc1 : forall l, (l < k1)%nat -> sf1 l * g1 l = t * sf1 l.
+Hypothesis Hc2 : forall l, (l < k2)%nat -> sf2 l * g2 l = t * sf2 l.
+Hypothesis Hp1 : forall l, (l < k1)%nat -> 0 <= sf1 l.
+Hypothesis Hp2 : forall l, (l < k2)%nat -> 0 <= sf2 l.
+Let M1 := compose k1 U1 s1 V1. Let X1 := compose k1 U1 sf1 V1. Let G1 := compose k1 U1 g1 V1.
+Let M2 := compose k2 U2 s2 V2. Let X2 := compose k2 U2 sf2 V2. Let G2 := compose k2 U2 g2 V2.
+
+Theorem svt_firmly_nonexpansive :
+  frob m n (fun i j => X1 i j - X2 i j) (fun i j => X1 i j - X2 i j) <= frob m n (fun i j => X1 i j - X2 i j) (fun i j => M1 i j - M2 i j).
+Proof.
+  pose proof (svt_XG m n k1 U1 V1 t HU1 HV1 sf1 g1 Hc1) as A1. pose proof (svt_XG m n k2 U2 V2 t HU2 HV2 sf2 g2 Hc2) as A2.
+  pose proof (svt_ZG m n k1 U1 V1 t HU1 HV1 Ht g1 Hg1 k2 U2 sf2 V2 HU2 HV2 Hp2) as B1.
+  pose proof (svt_ZG m n k2 U2 V2 t HU2 HV2 Ht g2 Hg2 k1 U1 sf1 V1 HU1 HV1 Hp1) as B2.
+  fold X1 G1 in A1. fold X2 G2 in A2. fold X2 G1 in B1. fold X1 G2 in B2.
+  assert (E : frob m n (fun i j => X1 i j - X2 i j) (fun i j => M1 i j - M2 i j)
+            = frob m n (fun i j => X1 i j - X2 i j) (fun i j => X1 i j - X2 i j)
+              + (frob m n X1 G1 - frob m n X1 G2 - frob m n X2 G1 + frob m n X2 G2)).
+  { unfold frob. rewrite <- !rsum_sub, <- !rsum_add. apply rsum_ext; intros i _.
+    rewrite <- !rsum_sub, <- !rsum_add. apply rsum_ext; intros j _.
+    pose proof (svt_residual k1 U1 s1 V1 sf1 g1 Hsplit1 i j) as R1. pose proof (svt_residual k2 U2 s2 V2 sf2 g2 Hsplit2 i j) as R2.
+    fold M1 X1 G1 in R1. fold M2 X2 G2 in R2. rewrite <- R1, <- R2. ring. }
+  rewrite E. lra.
+Qed.
+End SvtFirm.
